@@ -113,6 +113,7 @@ type machine struct {
 	initRunning       *ssa.Package
 	fsm               *fsModel
 	hadKnown          bool
+	knownPassed       []string // listed-finding assertions that failed concretely on this path
 	syncMaps          map[*value]*mapV
 	traceWhere        []string
 	builders          map[*value]value
